@@ -232,6 +232,40 @@ func VerifC13_Mutate() {
 			}
 		}
 	}
+	// the same mutation on the tree held in user collections (jp.Keyed /
+	// jp.Indexed) has the same effect as on the simple data
+	if vx.Param("KI", 1) == 1 && op != opRemove && op != opRemoveOne {
+		kd := wrapKI(mkData(shape))
+		var kerr error
+		var kres any
+		kpan := vx.Catch(func() {
+			switch op {
+			case opSet:
+				kerr = x.Set(kd, newVal)
+			case opSetOne:
+				kerr = x.SetOne(kd, newVal)
+			case opDel:
+				kerr = x.Del(kd)
+			case opDelOne:
+				kerr = x.DelOne(kd)
+			case opModify:
+				kres, kerr = x.Modify(kd, func(e any) (any, bool) { return tagged(unwrapKI(e)), true })
+			case opModifyOne:
+				kres, kerr = x.ModifyOne(kd, func(e any) (any, bool) { return tagged(unwrapKI(e)), true })
+			}
+		})
+		vx.Assert("no-panic:keyed/indexed", !kpan)
+		if !kpan {
+			vx.Assert("keyed-indexed-error-agrees", kerr == nil)
+			if kerr == nil {
+				if op == opModify { // (which single location a *One form picks may differ)
+					vx.Assert("keyed-indexed-mutation-agrees", vref.TreeEqual(unwrapKI(kres), result))
+				} else if op == opSet || op == opDel {
+					vx.Assert("keyed-indexed-mutation-agrees", vref.TreeEqual(unwrapKI(kd), data))
+				}
+			}
+		}
+	}
 	vx.Cover("changed", len(nodes) > 0)
 	vx.Cover("nothing-selected", len(nodes) == 0)
 }
